@@ -265,6 +265,46 @@ theorem lqr_tail_optimal (x0 : Vec ℝ ns) (ubar : Nat → Vec ℝ nc) (t : Nat)
   simp only [sub_self, dotProduct_zero] at h1
   linarith
 
+/-- **the backward value recursion (K_t, k_t, V_t, v_t) computes the value function**: the optimal cost as a function of the
+start is quadratic with Hessian `V_0` and gradient `V_0 (x_init - x̄_0) + v_0 = v_0` — for any two starts `x0, x0'` (and any
+nominals), with `V_0, v_0` the values the backward loop of the solve from `x0` ends with:
+`cost*(x0') - cost*(x0) = v_0·(x0'-x0) + ½ (x0'-x0)ᵀ V_0 (x0'-x0)`.
+(`value_function` in Lemmas is the same statement at every stage `t` for the cost-to-go.) -/
+theorem lqr_value_function (x0 x0' : Vec ℝ ns) (ubar ubar' : Nat → Vec ℝ nc) :
+    let xbar := nth (rollFrom (Sys.linear A B c) ubar 0 0 P.T x0)
+    let w := (bwFrom sol (Sys.linear A B c) P dt xbar ubar 0 P.T).1
+    (lqr sol (Sys.linear A B c) P dt x0' ubar').cost - (lqr sol (Sys.linear A B c) P dt x0 ubar).cost
+      = lam xbar w 0 x0 ⬝ᵥ (toFn x0' - toFn x0) + (1:ℝ)/2 * ((toFn x0' - toFn x0) ⬝ᵥ Vp w *ᵥ (toFn x0' - toFn x0)) := by
+  intro xbar w
+  have hnom : ∀ s, 0 ≤ s → s + 1 < 0 + P.T → xbar (s+1) = (Sys.linear A B c).f s (xbar s) (ubar s) := by
+    intro s _ h
+    have := rollFrom_step (Sys.linear A B c) ubar P.T 0 0 x0 s (by omega)
+    simpa using this
+  have hQ' : ∀ s, 0 ≤ s → s < 0 + P.T → CostOK (toM (P.Q s)) := fun s _ h => hQ s (by omega)
+  have hlin' : ∀ s, 0 ≤ s → s + 1 < 0 + P.T → A (s * dt) = A s ∧ B (s * dt) = B s := fun s _ h => hlin s (by omega)
+  have hv := value_function sol P dt xbar ubar hsol A B c P.T 0 hQ' hlin' hnom x0 x0'
+  set gs := (bwFrom sol (Sys.linear A B c) P dt xbar ubar 0 P.T).2 with hgs
+  -- the solve from x0 IS the policy roll-out from x0
+  have h0 : (lqr sol (Sys.linear A B c) P dt x0 ubar).cost = (fwFrom (Sys.linear A B c) P xbar ubar 0 0 x0 gs).2.2 := rfl
+  -- the policy (gains of the x0-solve) started at x0' costs exactly the optimum from x0'
+  have hpol : (fwFrom (Sys.linear A B c) P xbar ubar 0 0 x0' gs).2.2 = (lqr sol (Sys.linear A B c) P dt x0' ubar').cost := by
+    obtain ⟨hx', hc', hl'⟩ := cost_reported sol (Sys.linear A B c) P dt x0' ubar'
+    have hlen : (fwFrom (Sys.linear A B c) P xbar ubar 0 0 x0' gs).2.1.length = P.T := by
+      rw [fwFrom_length, hgs, bwFrom_length]
+    have hsim := fwFrom_sim (Sys.linear A B c) P xbar ubar gs 0 x0'
+    have ha := lqr_optimal_psd sol hsol A B c P dt hQ hlin x0' ubar' _ hlen
+    rw [hsim] at ha
+    obtain ⟨_, hid⟩ := opt_identity sol P dt xbar ubar hsol A B c P.T 0 hQ' hlin' hnom
+    have hb := hid x0' x0' _ hl'
+    have hg := gap_nonneg (Sys.linear A B c) P (fwFrom (Sys.linear A B c) P xbar ubar 0 0 x0' gs).2.1
+      (lqr sol (Sys.linear A B c) P dt x0' ubar').u 0 x0' x0' (fun s _ h => (hQ s (by omega)).2.1)
+    rw [← hc'] at hb
+    simp only [sub_self, dotProduct_zero, zero_add] at hb
+    have ha' : (lqr sol (Sys.linear A B c) P dt x0' ubar').cost ≤ (fwFrom (Sys.linear A B c) P xbar ubar 0 0 x0' gs).2.2 := ha
+    linarith
+  rw [h0, ← hpol]
+  exact hv
+
 end optimalPSD
 
 section optimal
@@ -642,6 +682,12 @@ example (A0 : Mat ℝ ns ns) (B0 : Mat ℝ ns nc) (dt T : Nat) :
 /-- steppers exist for every budget: `mpcInit` of a given stepper and of `None` -/
 example : (mpcInit (some (Stepper.new 3 2 (1/2 : ℝ) 0))).maxSteps = 2 ∧ (mpcInit (none : Option (Stepper ℝ))).maxSteps = 9 := by
   constructor <;> simp [mpcInit, Stepper.new, Stepper.default]
+
+/-- `lqr_value_function` / `value_function`: the hypotheses are those of `lqr_optimal_psd` (satisfiable, see above); a concrete
+non-trivial instance of the conclusion's right-hand side: with `V_0 = 1` (1×1) and gradient `v_0 = 2`, moving the start by
+`d = 3` changes the optimal cost by `2·3 + ½·3·1·3 = 10.5` -/
+example : ((fun _ : Fin 1 => (2:ℝ)) ⬝ᵥ fun _ => (3:ℝ)) + (1:ℝ)/2 * ((fun _ : Fin 1 => (3:ℝ)) ⬝ᵥ (1 : Matrix (Fin 1) (Fin 1) ℝ) *ᵥ fun _ => (3:ℝ)) = 10.5 := by
+  simp [dotProduct]; norm_num
 
 /-- time-invariant systems satisfy `hlin` for every `dt` -/
 example (A0 : Mat ℝ ns ns) (B0 : Mat ℝ ns nc) (dt T : Nat) :
